@@ -764,12 +764,12 @@ func c12Split(fs framingSpec, maxLen int) *Scenario {
 }
 
 var hdrTokens = []string{"Content-Length: ", "content-LENGTH:", "Content-Type: ", "X-Other: q\r\n", ":", " ", "0", "2", "-1", "+2", "2x",
-	"1099511627776", "9223372036854775807", "4611686018427387904", "99999999999999999999", "a/b", "c/d", "\r\n", "\n", "xy", "\r\n\r\n"}
+	"1099511627776", "9223372036854775807", "4611686018427387904", "99999999999999999999", "a/b", "c/d", "\r\n", "\n", "xy", "\r\n\r\n", "010", "09", "0x4", "1_0"}
 
 func c12Header(fs framingSpec, first string, maxLen int) *Scenario {
 	return &Scenario{
 		Name:       fmt.Sprintf("streams %s: token strings of length<=%d starting with %q", fs.Name, maxLen, first),
-		Params:     map[string]any{"framing": fs.Name, "tokens": hdrTokens, "max_tokens": maxLen, "suffixes": []string{"", "xy", "xyz"}, "first_token": first},
+		Params:     map[string]any{"framing": fs.Name, "tokens": hdrTokens, "max_tokens": maxLen, "suffixes": []string{"", "xy", "xyz", "0123456789ab"}, "first_token": first},
 		MemLimitMB: 16384,
 		Seq: func(r *SeqRun) {
 			var rec func(cur []string)
@@ -784,7 +784,7 @@ func c12Header(fs framingSpec, first string, maxLen int) *Scenario {
 						dangerous = true
 					}
 				}
-				for _, suf := range []string{"", "xy", "xyz"} {
+				for _, suf := range []string{"", "xy", "xyz", "0123456789ab"} {
 					stream := []byte(base + suf)
 					for _, eof := range []bool{false, true} {
 						cl := c12Judge(r, fs, stream, nil, eof, false, dangerous)
